@@ -112,7 +112,7 @@ func TestMain(m *testing.M) {
 	if k := os.Getenv("C05_CHILD"); k != "" {
 		os.Exit(firstOp(k))
 	}
-	R.Require("first_operation", "key_buffer_reuse", "helper_calls_between_objects", "sbox_sweep_complete", "dst==src", "history>=3", "badkeylen")
+	R.Require("first_operation", "key_buffer_reuse", "key_buffer_wiped_before_first_use", "helper_calls_between_objects", "sbox_sweep_complete", "dst==src", "history>=3", "badkeylen")
 	R.Assume("ref/rsm4 reproduces both GM/T 0002 vectors (TestRefSelf in setup; single-block vector re-checked here)")
 	hx.Main(m, R)
 }
@@ -348,6 +348,8 @@ func TestC05_KeyBufferReuse(t *testing.T) {
 		blk := gen.BytesN(16).Draw(t, "block")
 		var keys [][]byte
 		var objs []cipher.Block
+		var k2wiped [16]byte
+		_ = k2wiped
 		for i := 0; i < n; i++ {
 			k := gen.BytesN(16).Draw(t, "key")
 			if i > 0 && rapid.Bool().Draw(t, "onebit") {
@@ -387,6 +389,17 @@ func TestC05_KeyBufferReuse(t *testing.T) {
 				t.Fatalf("NewCipher: %v", err)
 			}
 			keys, objs = append(keys, k), append(objs, c)
+			if !bytes.Equal(buf, k) {
+				t.Fatalf("NewCipher modified the caller's key buffer")
+			}
+			if rapid.Bool().Draw(t, "wipe") {
+				// the caller wipes its key buffer as soon as NewCipher has returned, before the object was ever used
+				for j := range buf {
+					buf[j] = 0xEE
+				}
+				copy(k2wiped[:], buf)
+				R.Class("key_buffer_wiped_before_first_use")
+			}
 			// every object made so far, including those whose key buffer has since been overwritten
 			for j, o := range objs {
 				want, got := make([]byte, 16), make([]byte, 16)
@@ -399,9 +412,6 @@ func TestC05_KeyBufferReuse(t *testing.T) {
 				if !bytes.Equal(got, blk) {
 					t.Fatalf("cipher #%d (key %x) after the key buffer was rewritten: Decrypt does not invert", j, keys[j])
 				}
-			}
-			if !bytes.Equal(buf, k) {
-				t.Fatalf("NewCipher modified the caller's key buffer")
 			}
 		}
 		R.Case(true, hx.HashKey("reuse", keys, blk), "key_buffer_reuse")
